@@ -77,6 +77,8 @@ PLAIN_VALUES = {
     'f1_5': 1.5, 'fnegzero': -0.0, 'f1e_7': 1e-7, 'str_x': 'x', 'str_empty': '', 'str_e': u'\xe9',
     'str_digits': '12', 'list_empty': [], 'list_mixed': [1, 'a', None, [2], 2.5, True],
     'dict_nested': {'k': 1, 'l': [1], 'm': {'n': None}},
+    # only *top-level* keys that denote integers become integers: nested string keys stay strings
+    'dict_digit_keys': {'12': 'good', '-4': 'x', 'm': {'7': 1}}, 'list_of_dicts': [{'3': 1}, {'a': {'0': None}}],
     'np_float32': np.float32(1.5), 'np_float64': np.float64(-2.25), 'np_int64': np.int64(3),
     'np_int8': np.int8(-4), 'np_uint16': np.uint16(9), 'np_bool': np.bool_(True),
     'list_np': [np.int64(2), np.float32(0.5)],
